@@ -11,6 +11,7 @@ import (
 	"time"
 
 	"github.com/openGemini/openGemini/engine/immutable"
+	"github.com/openGemini/openGemini/lib/config"
 	"github.com/openGemini/openGemini/lib/cpu"
 	kit "github.com/openGemini/openGemini/lib/verifkit"
 	"github.com/openGemini/openGemini/lib/verifkit/crashfs"
@@ -114,9 +115,16 @@ func c03Run(rep *kit.Report, scratch string, c c03Case, seenInputs map[uint64]bo
 	rec := &vRecorder{root: root, imgRoot: imgRoot, seen: map[string]bool{}}
 	vRec = rec
 	rec.on, rec.inFlight = true, true
+	panics0, _ := immutable.VerifC03CompactPanics()
 	err = vApply(v, m, c.Reorg, len(c.Prefix)+1)
 	rec.on = false
 	vRec = nil
+	if n, msg := immutable.VerifC03CompactPanics(); n > panics0 {
+		rep.Eval(1)
+		rep.Count("cases", 1)
+		rep.Violation("compaction_task_panicked", c.key(), msg, c)
+		return true
+	}
 	if err != nil {
 		rep.Violation("op_error", c.key(), fmt.Sprintf("reorg %s: %v", c.Reorg, err), c)
 		return false
@@ -258,6 +266,10 @@ func TestVerifC03(t *testing.T) {
 	defer rep.Save()
 	vSetupEngineKnobs()
 	vInstallRecorder()
+	// compact-recovery = true is the product's default (a test binary starts from the zero value): a panic inside a
+	// compaction task is recovered and logged; the log hook turns it into a violation instead of a dead worker
+	config.GetStoreConfig().Compact.CompactRecovery = true
+	immutable.VerifC03WatchCompactPanics()
 	scratch := kit.Scratch()
 	if kit.ReplayPath() != "" {
 		var c c03Case
